@@ -184,7 +184,8 @@ struct Gen{
       case 8:{ int a=pick(p_usable); if(a<0){ construct(); return; } int b=pick_usable_otherdim(g[a].dim); if(b<0) return;
                Json& o=add(r.chance(0.5)?"dot":"dot_expr"); o["a"]=a; o["b"]=b; o["i"]=(int)r.below(3); break; }
       default:{ int a=pick(p_usable); if(a<0){ construct(); return; } int d; do{ d=r.range(1,7); }while(d==g[a].dim);
-               Json& o=add("rotate_m"); o["a"]=a; o["d"]=d; o["vs"]=(long long)r.below(1000); }
+               Json& o=add("rotate_m"); o["a"]=a; o["d"]=d; o["vs"]=(long long)r.below(1000);
+               if(r.chance(0.3)){ if(r.chance(0.5)){ o["c"]=g[a].dim; } else { o["d"]=g[a].dim; o["c"]=d; } } }   // non-square: one extent agrees
     }
   }
 
